@@ -68,6 +68,8 @@ connection keeps being served -/
 def fuzzStep (args : List String) : String :=
   -- unsolicited replies on one connection never keep a request on another connection from being answered
   if args.head? = some "wedge" then "alive answered=1" else
+  -- a reply nobody waits for does not keep the pool from noticing that the connection ended (C09 `closed_not_callable`)
+  if args.head? = some "strayclose" then "alive forgotten=1" else
   -- an agent survives whatever its pool replies (it may fail the call or end its loop; it does not die or hang)
   if args.head? = some "agentreply" then "alive" else
   match findStr "shape" args with
